@@ -178,9 +178,10 @@ def run(ctx):
     # "the grammar" is the Khronos one: the table the parser reads must BE the pinned grammar (C09's semantic diff), and the numbers
     # the typed requests accept must be the declared enumerants (C08's legs decide `from_u32` / `from_bits` on all 2^32 numbers)
     import c09
-    c09.snapshot_diff(ctx, "core", S.T["core"], S.T)
+    import common as _common
+    _common.composed(ctx, "C09-pinned-table", lambda: c09.snapshot_diff(ctx, "core", S.T["core"], S.T))
     import c08
-    c08.run(ctx)
+    _common.composed(ctx, "C08-conversions", lambda: c08.run(ctx))
     ctx.validated = rp.count
     # header on the compiled code
     res = kani.run_many(["k_parse_header"], cap_s=1500)
